@@ -380,6 +380,75 @@ fn read_header_obs<R: BufRead>(fmt: &str, r: R, pos: impl Fn(&R) -> usize) -> St
     }
 }
 
+/// header_reader() used as a plain Read: `sizes` read calls (each result: bytes or Int) or, with
+/// `sizes` = None, read_to_end; then the position of the inner reader
+fn header_read_obs<R: BufRead>(fmt: &str, r: R, sizes: Option<&[usize]>, pos: impl Fn(&R) -> usize) -> String {
+    use std::io::Read;
+    fn drive<H: Read>(h: &mut H, sizes: Option<&[usize]>) -> String {
+        match sizes {
+            Some(sz) => {
+                let mut out = Vec::new();
+                for &n in sz {
+                    let mut buf = vec![0u8; n];
+                    out.push(match guarded(AssertUnwindSafe(|| h.read(&mut buf))) {
+                        Outcome::Panicked(_) => "Panic".to_string(),
+                        Outcome::Done(Ok(k)) => hex(&buf[..k]),
+                        Outcome::Done(Err(e)) if e.kind() == std::io::ErrorKind::Interrupted => "Int".into(),
+                        Outcome::Done(Err(e)) => format!("Err:{}", nv::errkind(&e)),
+                    });
+                }
+                out.join(";")
+            }
+            None => {
+                let mut v = Vec::new();
+                match guarded(AssertUnwindSafe(|| h.read_to_end(&mut v))) {
+                    Outcome::Panicked(_) => "Panic".to_string(),
+                    Outcome::Done(Ok(_)) => format!("Ok:{}", hex(&v)),
+                    Outcome::Done(Err(e)) => format!("Err:{}", nv::errkind(&e)),
+                }
+            }
+        }
+    }
+    if fmt == "sam" {
+        let mut rd = noodles_sam::io::Reader::new(r);
+        let s = drive(&mut rd.header_reader(), sizes);
+        format!("{s}|{}", pos(rd.get_ref()))
+    } else {
+        let mut rd = noodles_vcf::io::Reader::new(r);
+        let s = drive(&mut rd.header_reader(), sizes);
+        format!("{s}|{}", pos(rd.get_ref()))
+    }
+}
+
+fn parse_sizes(s: &str) -> Vec<usize> {
+    if s == "_" { Vec::new() } else { s.split(',').map(|t| t.parse().unwrap()).collect() }
+}
+
+/// hdrr fmt data cap script sizes / hdre fmt data cap script chunk
+fn run_hdr_read(c: &Case) -> Obs {
+    let fmt = c.args[0].as_str();
+    let data = c.b(1);
+    let cap = c.u(2) as usize;
+    let script = parse_script(&c.args[3]);
+    let total = data.len();
+    let sizes = if c.kind == "hdrr" { Some(parse_sizes(&c.args[4])) } else { None };
+    let obs = header_read_obs(
+        fmt,
+        BufReader::with_capacity(cap, ScriptedReader::new(data.clone(), script)),
+        sizes.as_deref(),
+        bpos,
+    );
+    if c.kind == "hdre" {
+        // the bytes must be those a plain slice gives (where the inner reader stands depends on the
+        // windows: the adapter leaves what it has not handed out in the BufReader)
+        let plain = header_read_obs(fmt, &data[..], None, |r: &&[u8]| total - r.len());
+        if obs != plain {
+            return Obs::fail(obs, &format!("{fmt}-header-read-to-end-chunking-dependent"), format!("plain slice gives {plain}"));
+        }
+    }
+    Obs::ok(obs, data.len() >= 4 && data.contains(&b'\n'))
+}
+
 fn run_hdr(c: &Case) -> Obs {
     let fmt = c.args[0].as_str();
     let data = c.b(1);
@@ -907,6 +976,20 @@ pub fn generate(rng: &mut Rng, thorough: bool, w: &mut CaseWriter) {
         let wi = rng.chance(1, 3);
         let script = random_script(rng, h.len(), wi);
         w.push("hdr", vec![fmt.to_string(), hex(&h), rng.pick(&caps).to_string(), fmt_script(&script)]);
+        {
+            let wi = rng.chance(1, 3);
+            let script = random_script(rng, h.len(), wi);
+            if rng.chance(1, 2) {
+                let ns = rng.range(1, 30);
+                let sizes: Vec<String> = (0..ns)
+                    .map(|_| (if rng.chance(1, 10) { 0 } else if rng.chance(1, 4) { rng.range(1, 200) } else { rng.range(1, 9) }).to_string())
+                    .collect();
+                w.push("hdrr", vec![fmt.to_string(), hex(&h), rng.pick(&caps).to_string(), fmt_script(&script), sizes.join(",")]);
+            } else {
+                let chunk = *rng.pick(&[1usize, 7, 32, 8192]);
+                w.push("hdre", vec![fmt.to_string(), hex(&h), rng.pick(&caps).to_string(), fmt_script(&script), chunk.to_string()]);
+            }
+        }
         let bn = *rng.pick(&[3usize, 3, 4]);
         let b = gen_bed(rng, bn);
         let wi = rng.chance(1, 3);
@@ -968,6 +1051,7 @@ pub fn run(c: &Case) -> Option<Obs> {
         "fqr" => Some(run_fqr(c)),
         "fqx" => Some(run_fqx(c)),
         "hdr" => Some(run_hdr(c)),
+        "hdrr" | "hdre" => Some(run_hdr_read(c)),
         "bgzr" => Some(run_bgzr(c)),
         "bedr" => Some(run_bedr(c)),
         "samr" | "vcfr" => Some(run_tabr(c)),
